@@ -46,7 +46,7 @@ check('C19', 'exploration',
 check('C01', 'exploration',
       "sio<->sio worlds over real loopback TCP: every emission carries a unique id and one argument of a registry shape (ints, floats, unicode strings, structs/maps/slices with sio.Binary "
       "leaves) at sizes across the 126/32 KiB/64 KiB frame boundaries up to ~1 MB, over polling, websocket and polling->websocket, recovery off/on, both directions, 1..3 clients, 1/4/16 "
-      "emitting goroutines; typed recording handlers and decoy handlers on look-alike event names; offline multiset oracle (lost / duplicate / corrupted / misdelivered) and "
+      "emitting goroutines (in 'across-connect' cells the client's emitters start before Connect()); two typed recording handlers per event name and decoy handlers on look-alike event names; offline multiset oracle (lost / duplicate / corrupted / misdelivered) and "
       "'no lifecycle callback in a fault-free run'. Thorough adds volume and a pass under the race detector.",
       "Loss is concluded 30 s after an acked wire fence; events are emitted only after the connection handler has registered the handlers; generic any-typed handlers are excluded (C09 known finding).",
       "unique-id event log + multiset/digest oracle over real client/server worlds", "DESIGN.md §3 C01")
@@ -87,7 +87,7 @@ check('C04', 'exploration',
 check('C06', 'fault_enumeration',
       "Cause x phase trials (10 termination causes x {before CONNECT, inside a parked namespace middleware, connected idle, mid-burst c->s, mid-burst s->c, during the polling->websocket "
       "upgrade, two namespaces, Join/Leave storm on the closing socket, second namespace's CONNECT parked while the first socket runs a slow disconnecting handler} x transport) driven by a raw protocol peer through a byte-accurate TCP fault proxy; scripted sessions cut at every k-th byte (k=1 on websocket in thorough) in "
-      "each direction; several causes fired at once. Monitors: per-socket counters on connection/disconnecting/disconnect handler entry with the reported reason, and a quiescent-point "
+      "each direction; several causes fired at once; the socket's admission held at a wrapped adapter (public AdapterCreator) while the cause is injected; sessions being opened by 8 goroutines while Server.Close runs. Monitors: per-socket counters on connection/disconnecting/disconnect handler entry with the reported reason, and a quiescent-point "
       "sweep over Namespace.Sockets, the adapter index (invariant + snapshot hook), the Engine.IO session-count hook and an HTTP probe with the old sid.",
       "Quiescence = sweep stable and clean under a watchdog of pingInterval+pingTimeout+15 s; allowed reason sets per cause are the monitor's reading of 'a reason naming the cause'.",
       "fault injection (proxy cuts/black-holes, parked middleware) + handler-entry counters + quiescent-state sweep through invariant hooks", "DESIGN.md §3 C06")
@@ -102,7 +102,7 @@ check('C11', 'exploration',
 
 check('C07', 'fault_enumeration',
       "eio<->eio rig (real Engine.IO server and real Go client) through a TCP fault proxy that slows the WebSocket upgrade connection so that numbered text/binary messages (every 97th one 33..113 KB) of both sides keep flowing "
-      "through the swap, or refuses / stalls (1 s timeouts) / cuts it at every 8th (quick: 24th) byte of the websocket byte stream in each direction, under three traffic patterns. Oracle: multiset "
+      "through the swap (1 or 8 goroutines per side inside Send), or holds it back so that the server's first PING is queued on polling at the swap, or refuses / stalls (1 s timeouts) / cuts it at every 8th (quick: 24th) byte of the websocket byte stream in each direction, under three traffic patterns. Oracle: multiset "
       "equality of sent and received numbers at a fence (exactly once while the connection lives, at most once when it legitimately dies after the client swapped), TransportName() on both "
       "sides, close callbacks counted, Send bounded by a 60 s hang watchdog.",
       "A cut after the client swapped legitimately kills the connection; order across the swap is not demanded; polling->WebTransport (QUIC) is not exercised (framer covered by C11).",
@@ -112,7 +112,7 @@ check('C12', 'exploration',
       "Real server on loopback; the finite admission matrix is enumerated completely in both tiers: 66 namespace-middleware chains (length 0..5 x first rejection position x kind error/string/struct/map) x 2 "
       "namespaces x {1, 8 concurrent clients} x {Go client, raw peer}. Safety facts (order, nothing listed / in a room / reachable by a broadcast before all middlewares accepted or after a rejection, "
       "handler after rejection) are checked on a logical-clock log with state snapshots and tokenised broadcasts taken inside the parked middlewares; CONNECT / CONNECT_ERROR payloads and broadcast "
-      "non-delivery are observed on the wire by an independent peer behind an acked fence. Event middlewares: 10 configurations x 7 handler signatures x 2 client kinds, one event in flight per socket. "
+      "non-delivery are observed on the wire by an independent peer behind an acked fence. Event middlewares: 10 configurations x 7 handler signatures x 2 client kinds, one event in flight per socket; client-asked-for-ack x handler-takes-ack combinations. "
       "Part 3 (sampled): many self-identifying events of one socket inside a 2..3-middleware chain at once (name/arguments belong together, chain order, no handler after rejection); admission under "
       "connection-state recovery x UseMiddlewares x CONNECT auth {none, made-up pid (+offset), empty pid+offset} x {rejecting, accepting} middleware.",
       "Client<->socket mapping through the CONNECT auth payload; fence soundness relies on one FIFO packet queue per connection; absence concluded only after fence + 15 s. A structured rejection carried in the 'message' field is counted, not flagged (library design).",
@@ -130,7 +130,7 @@ check('C13', 'exploration',
 check('C14', 'fault_enumeration',
       "Silent black-holes (TCP stays open, data and FIN dropped) of a real eio server <-> real Go eio client link at 4 (quick) / 8 (thorough) placements over the heartbeat schedule (time-anchored before a ping, "
       "event-anchored between ping and pong and after the pong; 'upgrading': at the ws upgrade request, mid-handshake, at UpgradeDone, at the server's transport switch) x {both, c2s-only, s2c-only} x "
-      "{polling, websocket, upgraded, upgrading} x (pingInterval, pingTimeout) in {(1,1),(2,1)} quick / {1,2,3 s}^2 thorough; plus live-peer trials (idle, phase-offset traffic, traffic locked onto the ping/pong instants, a dense server stream around every ping, over 5 heartbeat periods). "
+      "{polling, websocket, upgraded, upgrading} x (pingInterval, pingTimeout) in {(1,1),(2,1)} quick / {1,2,3 s}^2 thorough; plus live-peer trials (idle, phase-offset traffic, traffic locked onto the ping/pong instants, a dense server stream around every ping, over 5 heartbeat periods; live peers whose upgrade is timed so that the first PING is queued on polling at the swap). "
       "Oracle: every side that lost its peer runs OnClose within t0+pingInterval+pingTimeout+1.5 s with reason 'ping timeout', hearing sides within their stated bound, no premature ping timeout, no close on a healthy link.",
       "Local strict black-hole relay; monotonic clock; 5 ms scheduler-jitter canary (stall > 250 ms => trial inconclusive, 2 retries); 1.5 s slack; not run under -race.",
       "fault injection with event-synchronous placement + bracketed time bounds + jitter canary", "DESIGN.md §3 C14")
@@ -146,7 +146,7 @@ check('C18', 'exploration',
 check('C08', 'exploration',
       "Adapter level: the real session-aware adapter (window and clean-up period through a verif constructor, clean-up passes counted by a hook) driven with generated histories of namespace / room-with-exclusions / "
       "direct broadcasts (text, binary, ack-carrying) over 3 sessions x 3 rooms, one or two sessions lost at every point k and restored one after the other from the same log, clean-up period {off, 2 ms, 10 ms}, reconnect gap on both sides of the window; RestoreSession compared "
-      "with an executable model of the log (missed list, identity, replayed frames re-encoded and decoded by the reference codec). End to end: raw protocol peer tracking the offset itself, and the real Go client "
+      "with an executable model of the log (missed list, identity, replayed frames re-encoded and decoded by the reference codec). A steady broadcast stream concurrent with 1 ms clean-up passes around a lost session. End to end: raw protocol peer tracking the offset itself, and the real Go client "
       "reconnecting through a TCP proxy cut (recovered flag on both sides, exactly-once across the reconnect).",
       "Time is bracketed: must-recover only when an upper bound of the elapsed time is inside the window and the offset entry is provably unexpired (or the cleaner is off), must-not only when a lower bound is outside. Binary leaves nested in maps / behind pointers inside logged packets are not exercised (C09 known finding).",
       "reference model of the recovery log + bracketed time + hook-counted clean-up passes; raw wire observer", "DESIGN.md §3 C08")
@@ -156,7 +156,7 @@ check('C15', 'fault_enumeration',
       "independent raw Engine.IO/Socket.IO server behind a killable listener, enumerating outage kind {connection refused, accept+reset, HTTP 503, accept+stall-then-heal} x pattern {down for good, down at first "
       "connect, down for j failures then restored, flapping} x ReconnectionAttempts 0..5 x jitter x transports: exact event counts (attempts == limit, reconnect_failed once, nothing afterwards), announced delays "
       "against min(max, min*2^n*(1+-j)), cumulative lower and per-gap upper clock brackets; offline emits (non-volatile / volatile / ack-carrying, 1..3 namespaces) issued at stable offline points and observed on "
-      "the raw server's wire with a delayed CONNECT reply: exactly once, in order, after the namespace was accepted, volatile never; forced window H5; a hot emitter (one goroutine emitting without pause through the connect: wire must read 0,1,2,...).",
+      "the raw server's wire with a delayed CONNECT reply: exactly once, in order, after the namespace was accepted, volatile never; forced window H5; hot emitters (1..8 goroutines emitting without pause through the connect: per goroutine the wire must read 0,1,2,... and nothing may stay stuck); ack-carrying binary emits whose timeout expires offline.",
       "Lifecycle handlers run asynchronously, so only counts, cumulative lower bounds from a synchronous start stamp and canary-gated upper bounds are verdicts; 'never reconnected' only >= 15 s after restore with attempts stopped.",
       "fault-pattern enumeration over a killable-listener rig; event-count and wire-log monitors; reference back-off model; jitter canary; hook H5", "DESIGN.md §3 C15")
 
